@@ -18,13 +18,17 @@ POWER_FAMILY = ["BoxCox2", "BoxCox1lam", "BoxCox1nu", "BoxCox2sym"]
 LAM_BRANCH = [5e-324, -1e-319, 0.0, 1e-10, -1e-10, 1e-10 * (1 + 1e-7), 1e-10 * (1 - 1e-7),
               -1e-10 * (1 + 1e-7), 1.5e-10, -1.5e-10, 2e-10, 5e-10, 1e-9, -1e-9,
               1e-8, 1e-6, -1e-6, 1e-3, -1e-3]
-LAM_REG = [0.2, 0.5, 1.0, 2.0, 3.0, -0.5, -1.0, -2.5, 0.01, 1.3]
+LAM_REG = [0.2, 0.5, 1.0, 2.0, 3.0, -0.5, -1.0, -2.5, 0.01, 1.3,
+           # simple fractions a caller types as such (roots: 1/3, 1/4 ...)
+           1.0 / 3, 2.0 / 3, 0.25, 0.75, 1.0 / 6, 0.1, -1.0 / 3, 1.5, 1.0 / 7, 0.3, 0.125]
 YJ_LAM = [1e-320, -5e-324, 0.0, 1e-9, -1e-9, 0.9e-8, 1.1e-8, 1e-7, -1e-7, 2.0, 2.0 + 1e-9, 2.0 - 1e-9,
           2.0 + 1e-7, 2.0 - 1e-7, 2.0 - 1.9e-5, 2.0 - 2.1e-5, 2.0 + 2.1e-5,
-          1.0, 0.5, 1.5, -1.0, 3.0, 0.2, 2.5, -0.3]
+          1.0, 0.5, 1.5, -1.0, 3.0, 0.2, 2.5, -0.3, 1.0 / 3, 2.0 / 3, 0.25, 5.0 / 3]
 MANLY_LAM = [0.0, 1e-10, 1e-3, -1e-3, 5.0, -5.0, 0.1, 1.0, -1.0, 2.5, -0.02, 0.3,
              1e-319, -3e-321, 5e-324, 1e-300, -1e-200]
-BASES = [None, 2.0, 10.0, math.e, 1.5]
+BASES = [None, 2.0, 10.0, math.e, 1.5,
+         # bases close to 1 (growth factors: 1 % per step), and large ones
+         1.01, 1.001, 1.1, 100.0, 1e6]
 
 
 def make(name, ctor, params):
